@@ -65,13 +65,17 @@ def declared (e : Option Name) : Option Name := if Writer.truthy e then e else n
 
 /-- **Writer.** After construction and any properly nested sequence of
 `new_change` / `new_file` calls, `_cur_encoding` is the nearest enclosing
-declaration. -/
+declaration.  (`he`: the constructor argument is `None` or a non-empty name.
+The bottom frame holds the constructor argument itself, so a falsy non-`None`
+argument `''` stays on the stack as `''` although it declares nothing; see the
+counterexample at the end of the file.) -/
 theorem C04_writer (enc : Option Name) (cs : List WCall)
+    (he : enc = none ∨ Writer.truthy enc = true)
     (hl : ∀ c ∈ cs, c.1 = 2 ∨ c.1 = 3)
     (hn : Spec.Nested [declared enc] (cs.map fun c => (c.1 - 1, declared c.2))) :
     ((writerStack enc cs).getLast?).getD none =
       Spec.nearest (Spec.openDecls ((0, declared enc) :: cs.map fun c => (c.1 - 1, declared c.2))) :=
-  writer_top_eq_nearest enc cs hl hn
+  writer_top_eq_nearest enc cs he hl hn
 
 /-- **Siblings never leak.** Whatever was declared inside earlier changes and
 files, right after a new change header that declares nothing the effective
@@ -122,5 +126,11 @@ example :
 example : WellNested [(SecId.main, some (.str b!"utf-8")), (SecId.change, some (.str b!"utf-16")),
       (SecId.file, none), (SecId.change, none)] :=
   ⟨_, _, rfl, by decide, by simp [Spec.Nested, Spec.openStep, SecId.main, SecId.change, SecId.file]⟩
+
+/-- `he` in `C04_writer` is necessary: constructed with `encoding=''` the stack is
+`['', '']`, so `_cur_encoding` is `''`, not `None` as the specification says. -/
+example : ((writerStack (some []) []).getLast?).getD none ≠
+    Spec.nearest (Spec.openDecls ((0, declared (some [])) :: ([] : List WCall).map fun c => (c.1 - 1, declared c.2))) := by
+  decide
 
 end Diffx.C04
